@@ -20,5 +20,6 @@ CONSTANTS
   Modes <- MCModes
   MaxSteps = 2
   ModelDeviations = TRUE
+  Follow <- MCFollowD1D2
   EmitAll = TRUE
 INVARIANTS TypeOK NoEffectOnReject OneLogPerWrite DefaultsOnlyAtCreation NoAccountDeleted StrictRequiresVersion StrictChartEnforced StrictHasNoDeviation AuditAcceptsAll AuditRelaxesStrict
